@@ -14,10 +14,10 @@ using prob::Problem;
 enum
 {
     OP_UPDATE, OP_PROPAGATE, OP_ENERGY, OP_ENERGY_GRAD, OP_PARTIALS, OP_EVAL, OP_COEFFS, OP_COPY, OP_ASSIGN, OP_DESTROY,
-    OP_ADJOINT, OP_LINEARITY, OP_TRAJ_COPY, OP_SELF_ASSIGN, OP_N
+    OP_ADJOINT, OP_LINEARITY, OP_TRAJ_COPY, OP_SELF_ASSIGN, OP_SAME_SPAN, OP_N
 };
 static const char *const kNames[] = {"update", "propagate", "energy", "energy_grad", "partials", "eval", "coeffs", "copy", "assign",
-                                     "destroy", "adjoint", "linearity", "traj_copy", "self_assign"};
+                                     "destroy", "adjoint", "linearity", "traj_copy", "self_assign", "same_span"};
 static const int kHandles = 3;
 
 template <class Spline>
@@ -357,6 +357,52 @@ struct World
                 ctx.mark_nontrivial();
                 break;
             }
+            case OP_SAME_SPAN:
+            {
+                // two consecutive updates with the same segment count, the same start and (bit for bit) the same end time
+                // but different interior knots: durations are dyadic, so any permutation sums to exactly the same span
+                int k = (int)(((o.I(0) % kHandles) + kHandles) % kHandles);
+                int N = 2 + (int)(((o.I(1) % 6) + 6) % 6);
+                Rng r((uint64_t)o.I(2), 0x5a);
+                Problem<DIM> p = prob::gen_problem<DIM>((uint64_t)o.I(2), N, Spline::ORDER, 0, (o.I(3) & 1) != 0);
+                p.t0 = (double)r.range(-50, 50);
+                std::vector<double> ratios = {1.0, 1.5, 2.0, 0.75, 1.25, 3.0, 0.5};
+                double base = Spline::ORDER == 7 ? 0.5 : 0.25;
+                for (int i = 0; i < N; ++i) p.T[i] = base * ratios[(size_t)r.below(ratios.size())];
+                auto rebuild = [&]() {
+                    p.tp[0] = p.t0;
+                    for (int i = 0; i < N; ++i) p.tp[i + 1] = p.tp[i] + p.T[i];
+                };
+                rebuild();
+                if (!h[k].s) { h[k].s = prob::make_spline<Spline, DIM>(p); }
+                else prob::apply_update<Spline, DIM>(*h[k].s, p);
+                h[k].m = p;
+                check_twin(h[k], "same-span update (first)", false);
+                (void)h[k].s->getTrajectory().evaluate(p.t0 + 0.3, 1);
+                // permute the durations (and take new waypoints): same N, same start, same end, other interior knots
+                for (int i = N - 1; i > 0; --i) std::swap(p.T[i], p.T[(size_t)r.below((uint64_t)i + 1)]);
+                bool moved = false;
+                for (int i = 0; i < N; ++i) moved = moved || p.T[i] != h[k].m.T[i];
+                rebuild();
+                for (int i = 0; i <= N; ++i)
+                    for (int d = 0; d < DIM; ++d) p.P(i, d) = r.real(-10.0, 10.0);
+                prob::apply_update<Spline, DIM>(*h[k].s, p);
+                h[k].m = p;
+                if (moved && same_bits(p.tp[N], h[k].s->getEndTime())) ctx.count("probe.same_span_other_knots");
+                check_twin(h[k], "same-span update (second)", true);
+                {
+                    std::unique_ptr<Spline> twin = prob::make_spline<Spline, DIM>(p);
+                    for (int i = 0; i < N; ++i)
+                    {
+                        double t = p.tp[i] + 0.37 * p.T[i];
+                        SIM_CHECK(bitwise_equal(h[k].s->getTrajectory().evaluate(t, 0), twin->getTrajectory().evaluate(t, 0)), "eval_vs_fresh",
+                                  "after an update that keeps the span but moves the interior knots, evaluation at t=" << t << " differs from a fresh spline");
+                    }
+                }
+                changed = true;
+                ctx.mark_nontrivial();
+                break;
+            }
             case OP_PROPAGATE:
             {
                 int k = pick(o.I(0));
@@ -382,6 +428,19 @@ struct World
                     SIM_CHECK(GO::equal(got, want, where), "propagate_vs_fresh",
                               "propagateGrad field " << where << " differs from the same call on a fresh spline; N=" << H.m.N());
                     GO::log(ctx, got);
+                }
+                // the construction map (waypoints, durations, boundary states) -> (coefficients, durations) does not involve
+                // the start time: the same call on a spline that starts somewhere else must give the same bits
+                {
+                    Problem<DIM> q = H.m;
+                    q.by_points = false;
+                    static const double shifts[] = {0.0, 1758931200.0, -86400.0, 1e-3, 6.02e12};
+                    q.t0 = shifts[(size_t)(((o.I(1) % 5) + 5) % 5)];
+                    Spline moved(q.T, q.P, q.t0, q.bc);
+                    G other = moved.propagateGrad(gdC, gdT);
+                    SIM_CHECK(GO::equal(other, want, where), "propagate_depends_on_start_time",
+                              "propagateGrad field " << where << " changes when only the start time changes (" << H.m.t0 << " -> " << q.t0 << "); N=" << H.m.N());
+                    ctx.count("oracle.start_time_invariance");
                 }
                 // a propagation must not disturb anything else
                 if (o.I(3) & 2) check_twin(H, "after propagate", true);
@@ -557,8 +616,8 @@ inline Plan gen_plan(uint64_t seed, uint64_t index, Tier tier, int profile)
     auto add = [&](int k, int w) { for (int q = 0; q < w; ++q) bag.push_back(k); };
     bool f_copy = r.chance(profile == 3 ? 1.0 : 0.3), f_destroy = r.chance(profile == 3 ? 0.8 : 0.2);
     if (profile == 0) { add(OP_PROPAGATE, 5); add(OP_ADJOINT, 4); add(OP_LINEARITY, 2); add(OP_UPDATE, 4); add(OP_ENERGY_GRAD, 1); }
-    else if (profile == 1) { add(OP_UPDATE, 8); add(OP_PROPAGATE, 4); add(OP_ENERGY, 1); add(OP_ENERGY_GRAD, 2); add(OP_PARTIALS, 1); add(OP_EVAL, 3); add(OP_COEFFS, 1); }
-    else if (profile == 2) { add(OP_UPDATE, 6); add(OP_EVAL, 8); add(OP_TRAJ_COPY, 3); add(OP_COEFFS, 1); }
+    else if (profile == 1) { add(OP_UPDATE, 8); add(OP_SAME_SPAN, 1); add(OP_PROPAGATE, 4); add(OP_ENERGY, 1); add(OP_ENERGY_GRAD, 2); add(OP_PARTIALS, 1); add(OP_EVAL, 3); add(OP_COEFFS, 1); }
+    else if (profile == 2) { add(OP_UPDATE, 6); add(OP_SAME_SPAN, 2); add(OP_EVAL, 8); add(OP_TRAJ_COPY, 3); add(OP_COEFFS, 1); }
     else { add(OP_UPDATE, 4); add(OP_EVAL, 3); add(OP_PROPAGATE, 2); add(OP_ENERGY_GRAD, 1); }
     if (f_copy) { add(OP_COPY, profile == 3 ? 4 : 1); add(OP_ASSIGN, profile == 3 ? 5 : 1); add(OP_SELF_ASSIGN, 1); }
     if (f_destroy) add(OP_DESTROY, 2);
@@ -574,9 +633,10 @@ inline Plan gen_plan(uint64_t seed, uint64_t index, Tier tier, int profile)
             if (r.chance(0.25)) o.i[1] = r.chance(0.5) ? 1 : 2;
             break;
         case OP_PROPAGATE: o.i = {(int64_t)r.below(kHandles), (int64_t)r.below(1u << 30), (int64_t)r.below(6), (int64_t)r.below(4)}; break;
+        case OP_SAME_SPAN: o.i = {r.chance(0.75) ? 0 : (int64_t)r.below(kHandles), (int64_t)r.below(6), (int64_t)r.below(1u << 30), (int64_t)r.below(2)}; break;
         case OP_ENERGY: case OP_PARTIALS: case OP_COEFFS: o.i = {(int64_t)r.below(kHandles)}; break;
         case OP_ENERGY_GRAD: o.i = {(int64_t)r.below(kHandles), (int64_t)r.below(2)}; break;
-        case OP_EVAL: o.i = {(int64_t)r.below(kHandles), (int64_t)r.below(7), (int64_t)r.below(64), (int64_t)r.below(8)}; o.d = {r.unit()}; break;
+        case OP_EVAL: o.i = {(int64_t)r.below(kHandles), (int64_t)r.below(8), (int64_t)r.below(64), (int64_t)r.below(8)}; o.d = {r.unit()}; break;
         case OP_COPY: case OP_ASSIGN: o.i = {(int64_t)r.below(kHandles), (int64_t)r.below(kHandles)}; break;
         case OP_DESTROY: case OP_SELF_ASSIGN: o.i = {(int64_t)r.below(kHandles)}; break;
         case OP_TRAJ_COPY: o.i = {(int64_t)r.below(kHandles), (int64_t)r.below(4)}; break;
